@@ -12,6 +12,8 @@ package main
 //   notify B                      deliver tip notification for B to the wallet follower
 //   recvtx T                      deliver unconfirmed transaction T
 //   synced | bal W C | utxos W | abal W C | addrs W | shist W 0|1 | bhist W 0|1 | wallets
+//   pend | sbu W | hsbu W | shistp W | bhistp W | pins | pcred | pgame     pending-set observations (C09)
+//   glog                          raw dump of the mined deposit-history bucket (C10)
 //   restart                       reopen the wallet database with a fresh WalletManager
 
 import (
@@ -101,6 +103,14 @@ func ledOp(e *WEnv, a []string) string {
 		return e.Sbu(a[1])
 	case a[0] == "pend" && len(a) == 1:
 		return e.Pend()
+	case a[0] == "pins" && len(a) == 1: // raw dump of the unmined-inputs bucket (wenv_c09.go)
+		return e.PendIns()
+	case a[0] == "pcred" && len(a) == 1: // raw dump of the unmined-credits bucket
+		return e.PendCred()
+	case a[0] == "pgame" && len(a) == 1: // raw dump of the unmined game-history bucket
+		return e.PendGame()
+	case a[0] == "glog" && len(a) == 1: // raw dump of the mined deposit-history bucket (C10)
+		return e.GameLog()
 	case a[0] == "params" && len(a) == 3:
 		cb, err1 := strconv.ParseUint(a[1], 10, 64)
 		mf, err2 := strconv.ParseUint(a[2], 10, 64)
